@@ -18,6 +18,11 @@ os.environ.setdefault('PBR_VERSION', '0.0.0')
 if REPO not in sys.path:
     sys.path.insert(0, REPO)
 
+import logging  # noqa: E402
+logging.getLogger('cgsmiles').setLevel(logging.ERROR)
+logging.getLogger('sxcg').setLevel(logging.ERROR)
+logging.getLogger('pysmiles').setLevel(logging.ERROR)
+
 from . import symx  # noqa: E402
 
 CORE = ['dialects', 'read_cgsmiles', 'pysmiles_utils', 'cgsmiles_utils',
